@@ -995,10 +995,12 @@ func runC11(args []string) error {
 	nMain, nRerun, nXdep, nHist, nStale, nRich := 110, 14, 14, 30, 12, 1
 	nBlocks, nDirs := 40, 40
 	nMixed, nRel := 40, 2
+	nRedef := 40
 	if *tier == "thorough" {
 		nMain, nRerun, nXdep, nHist, nStale, nRich = 1500, 150, 150, 400, 150, 8
 		nBlocks, nDirs = 600, 400
 		nMixed, nRel = 600, 20
+		nRedef = 800
 	}
 
 	var plans []*c11plan
@@ -1346,6 +1348,10 @@ func runC11(args []string) error {
 		return err
 	}
 	c11relimport(r.fork(), nRel, sm, distinct, &id)
+	// ------------------------------------------------------------ F. redefinition observed through function literals
+	if err := c11redef(r.fork(), nRedef, sm, distinct, &id); err != nil {
+		return err
+	}
 
 	hdr := "From Verif Require Import Lib.Str Session.Model Session.Cases.\nFrom Coq Require Import NArith.\nOpen Scope N_scope.\n"
 	per := 120
@@ -1367,7 +1373,7 @@ func runC11(args []string) error {
 	sm.DistinctNontriv = len(distinct)
 	sm.Rule = "one evaluation = one session (one interpreter fed one program through one entry point with one cut); programs: seeded declaration-ordered programs of the model language " +
 		"(int globals, a pointer kind, one-parameter functions that read/write globals and print, order-sensitive updates) x seeded cuts x {Eval, Compile+Execute, CompileAST+Execute, EvalPath files on disk and on a MapFS, Compile all then Execute all}, " +
-		"sessions that mix the entry points step by step (unnamed sources through Eval / Compile+Execute / CompileAST, named files through EvalPath on disk or MapFS, directories; file first then chunks, chunks then file, file-chunks-file) whose later steps use symbols and imports of earlier steps, relative imports after a named file, histories that redefine functions between uses, richer hand-written programs (types with methods, closures, slices, maps, loops), seeded structured main bodies (for/range/if/switch/bare blocks with local := declarations, closures over block-local and loop variables called after the block, function literals with defer, nested literals; top-level multi-value definitions, redeclarations, captures by closures and pointers before a redeclaration, locals of main that shadow a package-level variable read by functions) evaluated inside func main and as top-level chunks, and packages spread over 2-4 files with initialisers that read variables and call functions of later files (EvalPath on disk and MapFS against Eval of the concatenated source and the compiled package); distinct = distinct (entry point, chunk texts); non-trivial = the session prints at least 2 lines"
+		"sessions that mix the entry points step by step (unnamed sources through Eval / Compile+Execute / CompileAST, named files through EvalPath on disk or MapFS, directories; file first then chunks, chunks then file, file-chunks-file) whose later steps use symbols and imports of earlier steps, relative imports after a named file, histories that redefine functions between uses, sessions whose later chunks redefine one or several functions in either textual order with references through function literals (local, invoked, deferred, nested, stored in package variables, in methods, recursion through a literal) checked against the program in which every definition has a name of its own, richer hand-written programs (types with methods, closures, slices, maps, loops), seeded structured main bodies (for/range/if/switch/bare blocks with local := declarations, closures over block-local and loop variables called after the block, function literals with defer, nested literals; top-level multi-value definitions, redeclarations, captures by closures and pointers before a redeclaration, locals of main that shadow a package-level variable read by functions) evaluated inside func main and as top-level chunks, and packages spread over 2-4 files with initialisers that read variables and call functions of later files (EvalPath on disk and MapFS against Eval of the concatenated source and the compiled package); distinct = distinct (entry point, chunk texts); non-trivial = the session prints at least 2 lines"
 	keys := sortedKeys(sm.Distribution)
 	sort.Strings(keys)
 	return sm.write(*outDir)
